@@ -41,7 +41,7 @@
         let mut kawa = Kawa::new(Kind::Response, Buffer::new(SliceBuffer(&mut buf)));
         let start: u32 = kani::any();
         let len: u32 = kani::any();
-        kani::assume(start <= 8 && len <= 8);
+        kani::assume(start <= 2 && len <= 3);
         let data = Store::Slice(KSlice { start, len });
 
         let _cont = conv.call(Block::Chunk(Chunk { data }), &mut kawa);
